@@ -55,6 +55,39 @@ theorem encInt_decInt (big : Bool) (bs : Bytes) : encInt big bs.length (decInt b
 theorem decInt_lt (big : Bool) (bs : Bytes) : decInt big bs < 256 ^ bs.length := by
   unfold decInt; cases big <;> simp [leNat_lt, beNat_lt]
 
+@[simp] theorem take_encInt_append (big : Bool) (k v : Nat) (rest : Bytes) :
+    List.take k (encInt big k v ++ rest) = encInt big k v := by
+  rw [List.take_left' (by simp)]
+
+@[simp] theorem drop_encInt_append (big : Bool) (k v : Nat) (rest : Bytes) :
+    List.drop k (encInt big k v ++ rest) = rest := by
+  rw [List.drop_left' (by simp)]
+
+@[simp] theorem take_encInt (big : Bool) (k v : Nat) : List.take k (encInt big k v) = encInt big k v := by
+  rw [List.take_of_length_le (by simp)]
+
+@[simp] theorem drop_encInt (big : Bool) (k v : Nat) : List.drop k (encInt big k v) = [] := by
+  rw [List.drop_eq_nil_of_le (by simp)]
+
+theorem decInt_encInt1 (big : Bool) (n : Nat) (h : n < 256) : decInt big (encInt big 1 n) = n :=
+  decInt_encInt big 1 n (by omega)
+theorem decInt_encInt2 (big : Bool) (n : Nat) (h : n < 65536) : decInt big (encInt big 2 n) = n :=
+  decInt_encInt big 2 n (by omega)
+theorem decInt_encInt4 (big : Bool) (n : Nat) (h : n < 4294967296) : decInt big (encInt big 4 n) = n :=
+  decInt_encInt big 4 n (by omega)
+theorem decInt_encInt8 (big : Bool) (n : Nat) (h : n < 18446744073709551616) : decInt big (encInt big 8 n) = n :=
+  decInt_encInt big 8 n (by omega)
+
+/-- reading past a prefix of known length -/
+theorem drop_append_len (a b : List α) (n : Nat) (h : n = a.length) : List.drop n (a ++ b) = b := by
+  subst h; exact List.drop_left' rfl
+theorem take_append_len (a b : List α) (n : Nat) (h : n = a.length) : List.take n (a ++ b) = a := by
+  subst h; exact List.take_left' rfl
+theorem slice_mid (a b c : List α) (lo hi : Nat) (h1 : lo = a.length) (h2 : hi = a.length + b.length) :
+    slice (a ++ (b ++ c)) lo hi = b := by
+  subst h1 h2
+  simp [slice, List.take_append]
+
 theorem encInt_inj (big : Bool) (k a b : Nat) (ha : a < 256 ^ k) (hb : b < 256 ^ k)
     (h : encInt big k a = encInt big k b) : a = b := by
   unfold encInt at h
@@ -198,6 +231,25 @@ theorem packCodes_unpackCodes (big : Bool) (cs : List Code) (buf : Bytes)
     simp only [h2, codesSize]
     rw [List.take_add]
 
+/-- the bytes `struct.pack` produces when every value fits (no error branches) -/
+def encCodes (big : Bool) : List Code → List Nat → Bytes
+  | c :: cs, v :: vs => encInt big c.size v ++ encCodes big cs vs
+  | _, _ => []
+
+theorem packCodes_eq (big : Bool) (cs : List Code) (vs : List Nat) (h : Fits cs vs) :
+    packCodes big cs vs = .ok (encCodes big cs vs) := by
+  induction cs generalizing vs with
+  | nil => cases vs <;> simp_all [packCodes, encCodes, Fits]
+  | cons c cs ih =>
+    cases vs with
+    | nil => simp [Fits] at h
+    | cons v vs =>
+      obtain ⟨hv, hr⟩ := h
+      simp [packCodes, encCodes, hv, ih vs hr]
+
+theorem structPack_eq (f : Fmt) (vs : List Nat) (h : Fits f.codes vs) :
+    structPack f vs = .ok (encCodes f.big f.codes vs) := packCodes_eq _ _ _ h
+
 /-- the three generic lemmas of DESIGN §3 at the `Fmt` level -/
 theorem structPack_length (f : Fmt) (vs : List Nat) (b : Bytes) (h : structPack f vs = .ok b) :
     b.length = f.size := packCodes_length _ _ _ _ h
@@ -224,6 +276,25 @@ theorem structUnpack_structPack (f : Fmt) (vs : List Nat) (b : Bytes)
   have := unpackCodes_packCodes f.big f.codes vs b [] h
   simp only [List.append_nil] at this
   simp [structUnpack, hl, this]
+
+theorem encCodes_length (big : Bool) (cs : List Code) (vs : List Nat) (h : Fits cs vs) :
+    (encCodes big cs vs).length = codesSize cs :=
+  packCodes_length big cs vs _ (packCodes_eq big cs vs h)
+
+/-- decoding at offset `pre.length` of `pre ++ enc ++ rest` returns the encoded values -/
+theorem structUnpackFrom_enc (f : Fmt) (vs : List Nat) (pre rest : Bytes) (h : Fits f.codes vs)
+    (off : Nat) (hoff : off = pre.length) :
+    structUnpackFrom f (pre ++ (encCodes f.big f.codes vs ++ rest)) off = .ok vs := by
+  subst hoff
+  exact structUnpackFrom_append f vs pre _ rest (structPack_eq f vs h)
+
+theorem structUnpackFrom_enc0 (f : Fmt) (vs : List Nat) (rest : Bytes) (h : Fits f.codes vs) :
+    structUnpackFrom f (encCodes f.big f.codes vs ++ rest) 0 = .ok vs :=
+  structUnpackFrom_structPack f vs _ rest (structPack_eq f vs h)
+
+theorem structUnpack_enc (f : Fmt) (vs : List Nat) (h : Fits f.codes vs) :
+    structUnpack f (encCodes f.big f.codes vs) = .ok vs :=
+  structUnpack_structPack f vs _ (structPack_eq f vs h)
 
 theorem structPack_ok_iff (f : Fmt) (vs : List Nat) :
     (∃ b, structPack f vs = .ok b) ↔ Fits f.codes vs := packCodes_ok_iff _ _ _
